@@ -412,7 +412,8 @@ func checkReexecute(rep reporter, tag string, b comet.VectorSearch, first []come
 		want[x.GetId()] = math.Float32bits(x.GetScore())
 	}
 	for i, x := range second {
-		if bits, ok := want[x.GetId()]; !ok || bits != math.Float32bits(x.GetScore()) {
+		lastTie := math.Float32bits(x.GetScore()) == math.Float32bits(first[len(first)-1].GetScore()) // k-th place ties: either id
+		if bits, ok := want[x.GetId()]; !lastTie && (!ok || bits != math.Float32bits(x.GetScore())) {
 			rep(tag+".reexecute-differs", fmt.Sprintf("the second Execute of the same search object differs at rank %d: id %d score %g", i, x.GetId(), x.GetScore()))
 			return
 		}
@@ -420,5 +421,94 @@ func checkReexecute(rep reporter, tag string, b comet.VectorSearch, first []come
 			rep(tag+".reexecute-differs", fmt.Sprintf("the second Execute of the same search object has score %g at rank %d, the first had %g", x.GetScore(), i, first[i].GetScore()))
 			return
 		}
+	}
+}
+
+// heldSearch is a search object that lives across index operations and is re-configured step by step. After every
+// step (and after index changes) it is executed and compared with a FRESH search object to which the same setter calls
+// were applied without any Execute in between: whatever a builder remembers from an earlier Execute (a clamped k, cached
+// tables, queries appended to its own slice, a consumed filter) shows up as a difference.
+type heldSearch struct {
+	mk    func() comet.VectorSearch
+	steps []func(comet.VectorSearch) comet.VectorSearch
+	desc  []string
+	b     comet.VectorSearch
+}
+
+func newHeldSearch(mk func() comet.VectorSearch) *heldSearch { return &heldSearch{mk: mk, b: mk()} }
+
+func (h *heldSearch) step(desc string, f func(comet.VectorSearch) comet.VectorSearch) {
+	h.steps = append(h.steps, f)
+	h.desc = append(h.desc, desc)
+	h.b = f(h.b)
+}
+
+// compare executes the held object and a fresh equivalent; returns false after reporting a difference.
+func (h *heldSearch) compare(rep reporter, tag string) bool {
+	got, err1 := h.b.Execute()
+	fresh := h.mk()
+	for _, f := range h.steps {
+		fresh = f(fresh)
+	}
+	want, err2 := fresh.Execute()
+	d := fmt.Sprintf("search object configured by %v and executed %d times before", h.desc, len(h.steps))
+	if (err1 != nil) != (err2 != nil) {
+		rep(tag+".held-search-object-differs", fmt.Sprintf("%s: error %v, a fresh object with the same configuration: %v", d, err1, err2))
+		return false
+	}
+	if err1 != nil {
+		return true
+	}
+	if len(got) != len(want) {
+		rep(tag+".held-search-object-differs", fmt.Sprintf("%s returns %d results, a fresh object with the same configuration %d", d, len(got), len(want)))
+		return false
+	}
+	ws := map[uint32]uint32{}
+	for _, x := range want {
+		ws[x.GetId()] = math.Float32bits(x.GetScore())
+	}
+	for i, x := range got {
+		if math.Float32bits(want[i].GetScore()) != math.Float32bits(x.GetScore()) {
+			rep(tag+".held-search-object-differs", fmt.Sprintf("%s: rank %d has score %g, a fresh object with the same configuration %g", d, i, x.GetScore(), want[i].GetScore()))
+			return false
+		}
+		// ids that share the score of the last rank may legitimately differ (a k-th place tie is broken by map order)
+		if math.Float32bits(x.GetScore()) == math.Float32bits(want[len(want)-1].GetScore()) {
+			continue
+		}
+		if bits, ok := ws[x.GetId()]; !ok || bits != math.Float32bits(x.GetScore()) {
+			rep(tag+".held-search-object-differs", fmt.Sprintf("%s: id %d (score %g) is not in the answer of a fresh object with the same configuration", d, x.GetId(), x.GetScore()))
+			return false
+		}
+	}
+	return true
+}
+
+// heldSearchStep draws one re-configuration step.
+func heldSearchStep(rng *rand.Rand, h *heldSearch, q []float32, live []uint32, nl int) {
+	switch rng.IntN(6) {
+	case 0:
+		qq := cloneF32(q)
+		h.step("WithQuery", func(s comet.VectorSearch) comet.VectorSearch { return s.WithQuery(cloneF32(qq)) })
+	case 1, 2:
+		k := []int{0, 1, 2, 5, nl + 3, 10, 1000000}[rng.IntN(7)]
+		h.step(fmt.Sprintf("WithK(%d)", k), func(s comet.VectorSearch) comet.VectorSearch { return s.WithK(k) })
+	case 3:
+		if len(live) > 0 {
+			id := live[rng.IntN(len(live))]
+			h.step(fmt.Sprintf("WithNode(%d)", id), func(s comet.VectorSearch) comet.VectorSearch { return s.WithNode(id) })
+		}
+	case 4:
+		var sub []uint32
+		for _, id := range live {
+			if rng.IntN(2) == 0 {
+				sub = append(sub, id)
+			}
+		}
+		if len(sub) > 0 {
+			h.step(fmt.Sprintf("WithDocumentIDs(%d ids)", len(sub)), func(s comet.VectorSearch) comet.VectorSearch { return s.WithDocumentIDs(sub...) })
+		}
+	default:
+		// no re-configuration: only the index changed since the last Execute
 	}
 }
